@@ -61,10 +61,20 @@ CLAIMED = {
         note=NOTE_COMMON + 'NULL pivot keys raise TypeError (known finding F-20); pivot keys of one comparable class.',
         technique='Lean 4 proof of block placement/width + differential correspondence + un-pivot oracle'),
     'C06': dict(
-        text=('UNDER CONSTRUCTION'),
+        text=('Lean theorem C06_roundtrip: for EVERY written statement (a layered tree with one constructor per grammar alternative: '
+              'explicit parentheses anywhere, optional unary plus, empty / NULL list items, explicit ASC; SELECT with every clause '
+              'combination and nesting, BALANCES, JOURNAL, PRINT) that is well formed (names not reserved, valid dates, keys not '
+              'starting with a numeral, ...) the token-level parser model returns exactly its abstract syntax tree, for all large '
+              'enough fuel; proved by one mutual structural induction with continuation lemmas for the left-recursive levels, so '
+              'every parent x child x operand-position combination, every depth, precedence, left associativity and the '
+              'non-associativity of comparisons are instances; the reserved words of the model are proved equal to the @@keyword '
+              'list regenerated from the live grammar. Tied to the code by (B) the Lean scanner + parser model against the shipped '
+              'parser on generated texts (random case, white space, comments, redundant parentheses, literal spellings), the full '
+              'operator matrix, ~250 boundary forms and token-mutated malformed texts (accept/reject and AST), (S) the shipped '
+              'parser returning the generated AST, (V) `python -m tatsu bql.ebnf` regenerated and compared with parser.py.'),
         design='DESIGN.md §5 C06',
-        note=NOTE_COMMON,
-        technique='Lean 4 proof (token-level round trip) + model parser vs shipped parser + grammar translation validation'),
+        note=NOTE_COMMON + 'PARTIAL: the theorem is at token level; the character level (scanner model: maximal munch, case folding, comments, literal spellings) is tied by correspondence only; TatSu/PEG semantics are modelled by a deterministic recursive-descent parser (validated by B); the driver runs the model with fuel 16*tokens+64 while the theorem speaks of all large enough fuel; identifiers OPEN/CLOSE/CLEAR/BETWEEN/NULL are outside the printable domain.',
+        technique='Lean 4 proof (token-level round trip by mutual induction) + model parser vs shipped parser + grammar translation validation'),
     'C07': dict(
         text=('Lean theorems over the compile/exec model: the naming rule (alias / column name / source text); compiled SELECT '
               'targets are one per target, in order, all named; wildcard = the table\'s wildcard list in order; GROUP BY and '
